@@ -1,11 +1,21 @@
 (* C12 — messages reach exactly the entitled sessions under the sender's identity.
-   Proved for the relayed text messages (the part of the property about eavesdropping and speaking as
-   somebody else); the recipient rules for membership events are covered by the correspondence check and
-   the reference-membership monitor. *)
+   Proved over the model: exact recipients and prefix of channel / private PRIVMSG and NOTICE; for EVERY output of
+   EVERY entry a recipient table (C12_recipient_table: each recipient is justified by a recipient kind the rule
+   table allows for the command word: acting session, owner of a nick, services link, member of the named channel,
+   member of a channel the subject lists, all — the last only for an operator's $-broadcast); numerics only to the
+   session that caused them (C12_numerics), the closing ERROR to exactly one session which is gone afterwards
+   (C12_error_single_recipient, C12_closed_after_quit/kill); exact two-sided recipient statements for PART, KICK,
+   TOPIC, QUIT, KILL, JOIN, NICK pinned to the state before the command; the prefix of every relayed line is the
+   acting session's own stored prefix nick!user@robust/0x<id> (C12_prefix_identity, C12_prefix_invariant) — the
+   prefix a client writes into its line never appears.  Limits (see DESIGN §10): comma lists of JOIN/PART are
+   covered by the table only; JOIN/NICK exactness is for the recipient computation. *)
 From stdpp Require Import gmap.
 From Coq Require Import Strings.String List.
 From RV Require Import Irc.Str Irc.Parse Irc.State Irc.Monad Irc.Cmds.
-From RV Require Import IrcProofs.Inv IrcProofs.Recipients.
+From Coq Require Import ZArith NArith.
+From RV Require Import Base.Text Irc.Apply.
+From RV Require Import IrcProofs.Inv IrcProofs.InvPrims IrcProofs.Top IrcProofs.Recipients.
+From RV Require Import IrcProofs.Recipients2 IrcProofs.Recipients3 IrcProofs.Recipients4.
 Local Open Scope string_scope.
 
 Theorem C12_channel_text : forall k m sv r s target rest c,
@@ -30,3 +40,155 @@ Theorem C12_private_text : forall (k : N * N) m sv r s target rest (tk : N * N) 
     (forall a, In a away -> o_rcpt a = [fst k]).
 Proof. exact privmsg_private. Qed.
 Print Assumptions C12_private_text.
+
+(* every output of every log entry: its recipients are accounted for by recipient kinds which the rule table
+   (Recipients2.kinds_ok) allows for the command word of the message *)
+Theorem C12_recipient_table : forall e sv en sv' out,
+  SInv sv -> apply_entry e sv en = OOk sv' out ->
+  forall o, In o out ->
+  exists m ks, o_data o = msg_bytes m /\ kinds_ok (entry_srv sv en) (ucmd m) (hd0 m) ks /\
+    forall id, In id (o_rcpt o) ->
+      exists kd, In kd ks /\ just (has_id sv) (links sv (entry_key en)) (sv_netname sv) (entry_key en) (entry_srv sv en) kd id.
+Proof. exact recipients_by_kind. Qed.
+Print Assumptions C12_recipient_table.
+
+Theorem C12_numerics : forall e sv en sv' out,
+  SInv sv -> apply_entry e sv en = OOk sv' out ->
+  forall o, In o out ->
+  exists m, o_data o = msg_bytes m /\
+    (is_numeric (ucmd m) = true ->
+     o_rcpt o = [fst (entry_key en)] \/
+     (entry_srv sv en = true /\
+      ((exists k' : N * N, o_rcpt o = [fst k'] /\ has_id sv (fst k')) \/
+       (forall id, In id (o_rcpt o) -> In id (sv_serverSessions sv) \/ id = fst (entry_key en))))).
+Proof. exact numeric_addressing. Qed.
+Print Assumptions C12_numerics.
+
+Theorem C12_error_single_recipient : forall e sv en sv' out,
+  SInv sv -> apply_entry e sv en = OOk sv' out ->
+  forall o, In o out ->
+  exists m, o_data o = msg_bytes m /\
+    (ucmd m = "ERROR" ->
+     exists k' : N * N, o_rcpt o = [fst k'] /\
+       (k' = entry_key en \/
+        exists svx n, JJ (has_id sv) (links sv (entry_key en)) (sv_netname sv) svx /\ sv_nicks svx !! n = Some k')).
+Proof. exact error_addressing. Qed.
+Print Assumptions C12_error_single_recipient.
+
+Theorem C12_prefix_identity : forall e sv en sv' out,
+  SInv sv -> apply_entry e sv en = OOk sv' out ->
+  forall o, entry_srv sv en = false -> In o out ->
+  exists m, o_data o = msg_bytes m /\
+    match m_prefix m with
+    | None => True
+    | Some p =>
+        p = Prefix (sv_netname sv) "" "" \/
+        (exists nick, p = Prefix nick "" "" /\ ucmd m = "TOPIC") \/
+        (exists (k' : N * N) s, s_key s = k' /\ p = s_prefix s /\ (k' = entry_key en \/ ucmd m = "QUIT") /\
+           (s_server s = false -> s_nick s <> "" ->
+            p = Prefix (s_nick s) (s_user s) ("robust/0x" ++ hex_of_N (fst k'))))
+    end.
+Proof. exact prefix_identity. Qed.
+Print Assumptions C12_prefix_identity.
+
+Theorem C12_prefix_invariant : forall e net es sv,
+  run e (init_server net) es = Some sv ->
+  forall (k : N * N) s, sv_sessions sv !! k = Some s ->
+    s_key s = k /\
+    (s_server s = false -> s_nick s <> "" -> s_prefix s = Prefix (s_nick s) (s_user s) ("robust/0x" ++ hex_of_N (fst k))).
+Proof. exact prefix_invariant. Qed.
+Print Assumptions C12_prefix_invariant.
+
+Theorem C12_part : forall (k : N * N) m sv r s ch c,
+  InvM sv -> sv_sessions sv !! k = Some s -> m_params m = [ch] -> split_on ","%char ch = [ch] ->
+  sv_channels sv !! chan_to_lower ch = Some c -> is_Some (c_nicks c !! nick_to_lower (s_nick s)) ->
+  exists o,
+    cmd_part k m sv r = Ok (tt, leave_state (chan_to_lower ch) (nick_to_lower (s_nick s)) k sv, RCtx (r_msgid r) (o :: r_out r)) /\
+    o_data o = msg_bytes (usrmsg (s_prefix s) "PART" [ch]) /\
+    (forall id, In id (o_rcpt o) <-> chan_ids sv c id \/ In id (sv_serverSessions sv)).
+Proof. exact part_event. Qed.
+Print Assumptions C12_part.
+
+Theorem C12_kick : forall (k : N * N) m sv r s ch target rest c v (tk : N * N),
+  InvM sv -> sv_sessions sv !! k = Some s -> m_params m = ch :: target :: rest ->
+  sv_channels sv !! chan_to_lower ch = Some c -> c_nicks c !! nick_to_lower (s_nick s) = Some (true, v) ->
+  is_Some (c_nicks c !! nick_to_lower target) -> sv_nicks sv !! nick_to_lower target = Some tk ->
+  exists o,
+    cmd_kick k m sv r = Ok (tt, leave_state (chan_to_lower ch) (nick_to_lower target) tk sv, RCtx (r_msgid r) (o :: r_out r)) /\
+    o_data o = msg_bytes (usrmsg (s_prefix s) "KICK" [ch; target; trailing m]) /\
+    (forall id, In id (o_rcpt o) <-> chan_ids sv c id \/ In id (sv_serverSessions sv)).
+Proof. exact kick_event. Qed.
+Print Assumptions C12_kick.
+
+Theorem C12_topic : forall (k : N * N) m sv r s ch c o v,
+  InvM sv -> sv_sessions sv !! k = Some s -> nth_error (m_params m) 0 = Some ch ->
+  sv_channels sv !! chan_to_lower ch = Some c -> chan_to_lower ch ∈ s_channels s ->
+  is_empty (trailing m) = false -> Nat.eqb (nparams m) 1 = false ->
+  c_nicks c !! nick_to_lower (s_nick s) = Some (o, v) -> (has_mode 116 (c_modes c) = false \/ o = true) ->
+  exists sv' o1 o2,
+    cmd_topic k m sv r = Ok (tt, sv', RCtx (r_msgid r) (o2 :: o1 :: r_out r)) /\
+    o_data o1 = msg_bytes (usrmsg (s_prefix s) "TOPIC" [ch; trailing m]) /\
+    (forall id, In id (o_rcpt o1) <-> chan_ids sv c id) /\
+    (forall id, In id (o_rcpt o2) <-> In id (sv_serverSessions sv)).
+Proof. exact topic_event. Qed.
+Print Assumptions C12_topic.
+
+Theorem C12_quit : forall (k : N * N) m sv r s,
+  InvM sv -> sv_sessions sv !! k = Some s -> s_deleted s = false -> s_loggedIn s = true ->
+  exists o1 o2,
+    cmd_quit k m sv r = Ok (tt, delete_state k s sv, RCtx (r_msgid r) (o2 :: o1 :: r_out r)) /\
+    o_data o1 = msg_bytes (usrmsg (s_prefix s) "QUIT" [trailing m]) /\
+    (forall id, In id (o_rcpt o1) <-> others_sharing sv s id \/ In id (sv_serverSessions sv)) /\
+    o_data o2 = msg_bytes (noprefix "ERROR" ["Closing Link: " ++ s_nick s ++ "[" ++ p_host (s_prefix s) ++ "] (" ++ trailing m ++ ")"]) /\
+    o_rcpt o2 = [fst k].
+Proof. exact quit_event. Qed.
+Print Assumptions C12_quit.
+
+Theorem C12_kill : forall (k : N * N) m sv r s p0 rest (tk : N * N) t,
+  InvM sv -> sv_sessions sv !! k = Some s -> s_operator s = true -> m_params m = p0 :: rest ->
+  sv_nicks sv !! nick_to_lower p0 = Some tk -> sv_sessions sv !! tk = Some t -> s_deleted t = false ->
+  exists o1 o2 o3,
+    cmd_kill k m sv r = Ok (tt, delete_state tk t sv, RCtx (r_msgid r) (o3 :: o2 :: o1 :: r_out r)) /\
+    o_data o1 = msg_bytes (usrmsg (s_prefix t) "QUIT" ["Killed by " ++ s_nick s ++ ": " ++ trailing m]) /\
+    (forall id, In id (o_rcpt o1) <-> others_sharing sv t id \/ In id (sv_serverSessions sv)) /\
+    o_data o2 = msg_bytes (usrmsg (s_prefix s) "KILL"
+                  [s_nick t; "ircd!" ++ p_host (s_prefix s) ++ "!" ++ s_nick s ++ " (" ++ trailing m ++ ")"]) /\
+    o_rcpt o2 = [fst tk] /\
+    o_data o3 = msg_bytes (noprefix "ERROR"
+                  ["Closing Link: " ++ s_nick t ++ "[" ++ p_host (s_prefix t) ++ "] (Killed (" ++ s_nick s ++ " (" ++ trailing m ++ ")))"]) /\
+    o_rcpt o3 = [fst tk].
+Proof. exact kill_event. Qed.
+Print Assumptions C12_kill.
+
+Theorem C12_closed_after_quit : forall (k : N * N) s sv lp,
+  sv_sessions sv !! k = Some s ->
+  sv_sessions (maybe_delete_session k (set_lastProcessed lp (delete_state k s sv))) !! k = None.
+Proof. exact quit_closes. Qed.
+Print Assumptions C12_closed_after_quit.
+
+Theorem C12_closed_after_kill : forall (k tk : N * N) s t sv lp,
+  sv_sessions sv !! k = Some s -> s_operator s = true -> sv_sessions sv !! tk = Some t ->
+  sv_sessions (maybe_delete_session k (set_lastProcessed lp (delete_state tk t sv))) !! tk = None.
+Proof. exact kill_closes. Qed.
+Print Assumptions C12_closed_after_kill.
+
+Theorem C12_join_recipients : forall sv lc c me (k : N * N) op ids id,
+  sv_nicks sv !! me = Some k ->
+  rc_channel (add_member_state lc c me k op sv) (cc_nicks (<[me := (op, false)]>) c) = Ok ids ->
+  (In id ids <-> chan_ids sv c id \/ id = fst k).
+Proof. exact join_recipients. Qed.
+Print Assumptions C12_join_recipients.
+
+Theorem C12_nick_recipients : forall sv (k : N * N) s nick s' ids id,
+  InvM sv -> sv_sessions sv !! k = Some s -> s_deleted s = false -> s_nick s <> "" ->
+  sv_nicks sv !! nick_to_lower nick = None -> s_channels s' = s_channels s ->
+  rc_common (nick_state k nick (nick_to_lower (s_nick s)) false sv) s' = Ok ids ->
+  (In id ids <-> exists lc c, lc ∈ s_channels s /\ sv_channels sv !! lc = Some c /\ chan_ids sv c id).
+Proof. exact nick_recipients. Qed.
+Print Assumptions C12_nick_recipients.
+
+Theorem C12_members_are_sessions : forall sv lc c id,
+  EInv sv -> sv_channels sv !! lc = Some c ->
+  (chan_ids sv c id <-> exists (k' : N * N) s', sv_sessions sv !! k' = Some s' /\ lc ∈ s_channels s' /\ id = fst k').
+Proof. exact chan_ids_sessions. Qed.
+Print Assumptions C12_members_are_sessions.
